@@ -4,6 +4,8 @@ import (
 	"bytes"
 	"encoding/json"
 	"fmt"
+	"io"
+	"strings"
 
 	"github.com/piprate/json-gold/ld"
 )
@@ -21,7 +23,7 @@ type classifyOut struct {
 	JSONOK bool   `json:"jsonOK"`
 	LDOK   bool   `json:"ldOK"`
 	Nodes  int    `json:"nodes"`
-	Class  string `json:"class"` // notJson | ldReject | okNoNodes | ok
+	Class  string `json:"class"` // notJson | ldReject | okNoNodes | ok | unknown
 	Panic  bool   `json:"panic"` // json-gold itself panicked (still "JSON-LD processing rejects it")
 }
 
@@ -35,6 +37,24 @@ func classifyData(text string) classifyOut {
 		return o
 	}
 	o.JSONOK = true
+	// a JSON-LD document is ONE JSON object or array: a bare scalar, or a value followed by anything but white space, is
+	// JSON from which a value can be read but not a JSON-LD document -- no class of the specification says what to do
+	rest, _ := io.ReadAll(dec.Buffered())
+	off := int(dec.InputOffset()) + len(rest)
+	if off > len(text) {
+		off = len(text)
+	}
+	tail := string(rest) + text[off:]
+	switch v.(type) {
+	case map[string]any, []any:
+	default:
+		o.Class = "unknown"
+		return o
+	}
+	if strings.TrimSpace(tail) != "" {
+		o.Class = "unknown"
+		return o
+	}
 	func() {
 		defer func() {
 			if r := recover(); r != nil {
